@@ -382,6 +382,8 @@ class CFG:
             for x in walk_no_nested(probe):
                 if isinstance(x, ast.Call):
                     d = dotted(x.func)
+                    if d is None and isinstance(x.func, ast.Attribute):
+                        d = "?." + x.func.attr  # method of a computed receiver: `table[key].method(...)`, `f(x).method(...)`
                     if d is not None and name_pred(d):
                         out.append((n, x))
         return out
